@@ -223,6 +223,8 @@ def axioms(lw, z3):
         out.append(v > 0)
         out.append(v >= 1 + a)                             # tangent at 0
         for c in EXP_MARKS:
+            if CTX.xr_marks is not None and not (CTX.xr_marks[0] <= c <= CTX.xr_marks[1]):
+                continue        # landmarks outside the dtype's finite range of exp arguments never matter
             if c not in _EXPB:
                 _EXPB[c] = _exp_bounds(c)
             lo, hi = _EXPB[c]
